@@ -391,18 +391,22 @@ ADDENDA8 = {
     "C19": "; shared quantisation records and numpy view rows (borrowed)",
 }
 ADDENDA10 = {
-    "C02": "; operator-view comparison of the brick-format restriction (vacuous comparisons); memory-only predicate folded for Op.Memcpy",
-    "C03": "; access-set coverage of IFM2 and LUT block dependency (borrowed)",
+    "C02": "; operator-view comparison of the brick-format restriction (vacuous comparisons); memory-only predicate folded for Op.Memcpy; trailing rank cut of the per-format NHWC tables; one operand index per branch of the slice-read move",
+    "C03": "; access-set coverage of IFM2 and LUT block dependency (borrowed); merge precedence when an optimised sub-schedule is adopted",
     "C04": "; queue depths of the wait model (single writer, literals per accelerator family)",
     "C05": "; parallel stores into the HillClimb turn order simulated over all aliasing patterns; order-preserving writers of the Greedy allocation list; address reads off the call's own visited list",
     "C06": "; no process-wide memo in the command stream modules (borrowed state inventory); operand-order bit decided on every path",
     "C07": "; clang-AST nesting of the two slice cursors; operator type of the stride division in the wrapper",
+    "C08": "; encode_bias interpreted through slice stores and int.to_bytes; guard / member agreement of per-group quantisation slices; provenance of the weight buffer size argument (dominating definitions inlined)",
+    "C09": "; CFG must-pass of an int32 bias after every average pool lowering (finding F130); element (not converted value) returned by the reader's scalar helper",
+    "C10": "; candidate stripe heights evaluated on a grid; Box.wrap interpreted on probes; axis roles of the padding helpers",
     "C11": "; placement-blind passes before the supported-operator check (finding F129); walk order of the interface index vectors; clone completeness (borrowed)",
-    "C12": "; brick-format restriction (borrowed)",
+    "C12": "; brick-format restriction (borrowed); shape behind the exchanged strides of TRANSPOSE",
     "C13": "; None-hole lint through enumerate and carrier tuples; finite clamp literals of the table stand-in",
     "C14": "; in-place writes through self to class-level containers; enumerate position before the object in tuple sort keys",
     "C15": "; conjunct sets guarding the SHRAM layout registers",
     "C16": "; operands examined per generic constraint resolved through accessor bodies and operand index tables (finding F128); NHWC attribute tuple order; same-operator type / placement guards; polarity-aware both-axes conditions",
+    "C17": "; per-iteration provenance of the memory tensors wired to an Ethos-U operator; buffer index / sharing key of the writer",
     "C18": "; accelerator-only tests of the internal defaults; selections stored verbatim",
     "C19": "; folded constants of the int16 table generator; no process-wide memo in the table modules (borrowed)",
 }
